@@ -144,7 +144,7 @@ func runC03(a *Args) error {
 	rng := NewRng(a.Seed)
 	prelude := "From NV Require Import Base C03_Model.\nOpen Scope string_scope.\n"
 	w := NewCaseWriter(a, "C03", prelude, "case", "run")
-	w.Rule = "placements of the signing chain's root/intermediate/leaf, of twin certificates (same subject and key, other serial), of unrelated and TSA certificates into named stores of the types ca/signingAuthority/tsa; statement trust-store lists with duplicates, several types, unknown and failing stores; 1-3 statements with exact/wildcard/foreign scopes; both schemes, both envelope formats, with and without a timestamp countersignature (in-process TSA); families: exhaustive (all lists of length<=2 (thorough <=3) over {ca:a,signingAuthority:a,tsa:a,ca:b} x 5 root placements x 2 schemes x 4 failure patterns), random scenarios (right store / wrong type / unlisted / other statement / tsa / load error), real truststore.NewX509TrustStore on a directory (fs asked from the store itself), malformed lists injected after validation (correspondence only). Each case runs the real verifier.Verify. non-trivial = an authenticity result exists and some chain certificate sits in some store; distinct = distinct canonical inputs"
+	w.Rule = "placements of the signing chain's root/intermediate/leaf, of twin certificates (same subject and key, other serial), of unrelated and TSA certificates into named stores of the types ca/signingAuthority/tsa; statement trust-store lists with duplicates, several types, unknown and failing stores; 1-4 statements with exact/wildcard/foreign/case-variant scopes; both schemes, both envelope formats, with and without a timestamp countersignature (in-process TSA). Families: exhaustive (all lists of length<=2 (thorough <=3) over {ca:a,signingAuthority:a,tsa:a,ca:b} x 5 root placements x 2 schemes x 4 failure patterns); random scenarios (right store / wrong type / unlisted / other statement / tsa / load error); real truststore.NewX509TrustStore on a directory (fs asked from the store itself); malformed lists injected after validation (correspondence only); rare-names (store names differing by case only, leading dots, type words as names; empty vs nil slice vs nil element answers); positions (the trusted store at every list position x 13 kinds of odd element at every other position, matched chain certificate and its place inside the store rotating); statement-positions (all 24 orders of exact/wildcard/foreign/case-variant statements x which one lists the trusted store x 7 references incl. upper-case host and port); history (ONE verifier and ONE store object, 2-4 Verify calls with the store content, scheme, chain or repository changed in between; every operator after every start state in both directions plus random sequences; each step its own case). Each case runs the real verifier.Verify. non-trivial = an authenticity result exists and some chain certificate sits in some store; distinct = distinct canonical inputs"
 	w.Assumptions = []string{
 		"certificate identity is x509.Certificate.Equal (ids assigned by Equal); notation-core-go VerifyAuthenticity is an input-independent dependency (some chain certificate Equal some trust certificate)",
 		"the trust store is a function of (type, name) during one Verify; for the real directory store its answers are obtained by direct calls before Verify",
